@@ -47,6 +47,7 @@ func genOptions(t *rapid.T) []string {
 func Gen(store string, conc bool) func(t *rapid.T) *Case {
 	return func(t *rapid.T) *Case {
 		c := &Case{Store: store, Options: genOptions(t)}
+		c.Poison = rapid.IntRange(0, 3).Draw(t, "poison") == 0
 		if store == "durable" {
 			c.Chunk = rapid.SampledFrom([]int{1, 200, 0}).Draw(t, "chunk")
 		}
